@@ -155,28 +155,24 @@ def run(ctx, chk):
             else:
                 chk.fail('C07.5', '%s:%s' % (cfg, nm), '%s can hold bits above 0x1f (some store is not masked): %s'
                          % (nm, inv.why.get((owner, fld))), 'src/devices/io.rs', None)
-        # rule 6
+        # rule 6: the dispatcher is called only from the step function and the private helpers it is split into, and
+        # every way through a step function reaches it
+        fam = private_family(prog, STEP3) - {HI}
         callers = sorted(set(c[0] for c in prog.callers(HI)))
-        want = {CORE + 'update', CORE + 'run_code_block', CORE + 'run_interp'}
-        if set(callers) <= want and CORE + 'update' in callers:
-            chk.ok('C07.6', cfg + ':callers', sample={'callers': callers})
+        if callers and set(callers) <= fam:
+            chk.ok('C07.6', cfg + ':callers', sample={'callers': callers, 'step family': sorted(fam)})
         else:
-            chk.fail('C07.6', cfg + ':callers', 'handle_interrupt is called from %s' % callers, file, None)
-        for f in callers:
-            fn = prog.fns[f]
-            # every path from entry to a return passes through the call (the call blocks form a cut)
-            cut = [bb for bb, t, names in prog.call_sites(f) if HI in names]
-            if f == CORE + 'update':
-                cut += [bb for bb, t, names in prog.call_sites(f) if (CORE + 'run_interp') in names or
-                        (CORE + 'run_code_block') in names]
-            reach = prog.reachable_blocks(f, 0, avoid=set(cut))
-            rets = [i for i, b in enumerate(fn['blocks']) if b['term']['k'] == 'return']
-            okk = bool(cut) and not any(r_ in reach for r_ in rets)
-            if okk:
+            chk.fail('C07.6', cfg + ':callers', 'handle_interrupt is called from %s (the step function Core::update and '
+                     'its private helpers are %s)' % (callers, sorted(fam)), file, None)
+        good = always_calls(prog, fam, HI)
+        for f in sorted(set(callers) | ({CORE + 'update', CORE + 'run_interp', CORE + 'run_code_block'} & fam)):
+            if f not in prog.fns:
+                continue
+            if f in good:
                 chk.ok('C07.6', '%s:%s' % (cfg, f.split('::')[-1]))
             else:
                 chk.fail('C07.6', '%s:%s' % (cfg, f.split('::')[-1]), '%s can return without calling handle_interrupt' % f,
-                         file, fn['line'])
+                         file, prog.fns[f]['line'])
     chk.assumptions += ['Registers.cycles stays far below 2^32 (it is drained every step, C09)',
                         'memory_write_byte may change any part of MemoryAreas (IF/IE included): its effects are havoced '
                         'between the two pushes']
